@@ -1,7 +1,7 @@
 SPECIFICATION Spec
 CONSTANTS
   Proto = "CMPP"
-  MaxCands = 3
+  MaxCands = 4
   Codings = {0, 8, 9, 15, 7}
   TiePrio = FALSE
 INVARIANT Correct
